@@ -320,6 +320,9 @@ def run(ctx):
             ok, hs = tb[pat]
             return None if not ok else (h in hs)
         exp = c02eng.spec(c, lambda pat, h: c02eng.py_match(pat, h))
+        if mo is not None and mo.startswith("HANG"):
+            dist["model_timeouts"] = dist.get("model_timeouts", 0) + 1      # the model did not answer in time: not compared (S still judges)
+            mo = None
         mcan, indom = canon_model(mo) if mo is not None else (None, True)
         mode = pick_mode(r, exp)
         obs = R.run_real(c, p, mode)
